@@ -182,11 +182,115 @@ def cond_edges(fn, atom_pred):
     return out
 
 
+def eq_cmp(fn, nid):
+    """(op, lhs, rhs) with op in ('==', '!=') for a built-in or overloaded (in)equality comparison, else None"""
+    n = fn.nodes[nid]
+    c = fn.kids(nid)
+    if n["k"] == "bin" and n["op"] in ("==", "!=") and len(c) == 2:
+        return n["op"], c[0], c[1]
+    if n["k"] == "call":
+        leaf = n.get("callee", "").split("::")[-1]
+        if leaf in ("operator==", "operator!=") and len(c) >= 2:
+            return leaf[len("operator"):], c[-2], c[-1]
+    return None
+
+
+def equal_want(side_pred):
+    """want function for licensed_edges / only_via_want: an (in)equality comparison whose two sides both satisfy side_pred(fn, nid) must
+    come out as 'equal' ('==' true or '!=' false) - independent of which of the two operators the code uses"""
+    def want(fn, nid):
+        c = eq_cmp(fn, nid)
+        if c is None or not (side_pred(fn, c[1]) and side_pred(fn, c[2])):
+            return None
+        return c[0] == "=="
+    return want
+
+
+def const_value(fn, nid):
+    """integer value of a constant expression (through casts), 0 for null pointer constants, else None"""
+    for _ in range(6):
+        n = fn.nodes[nid]
+        if n["k"] == "null":
+            return 0
+        if n["k"] == "lit" and isinstance(n.get("v"), int):
+            return n["v"]
+        if n["k"] == "cast" and fn.kids(nid):
+            nid = fn.kids(nid)[0]
+            continue
+        if isinstance(n.get("v"), int) and n["k"] in ("ref", "member"):
+            return n["v"]
+        break
+    return None
+
+
+def value_only_from(fn, nid, targets, falsy_ok=True, depth=0):
+    """the (boolean) value of expression nid is the result of one of the target events whenever it is true: nid is a target, a cast of one, or a
+    local all of whose definitions are targets or constant false"""
+    if depth > 4:
+        return False
+    n = fn.nodes[nid]
+    if nid in targets:
+        return True
+    if n["k"] == "cast" and fn.kids(nid):
+        return value_only_from(fn, fn.kids(nid)[0], targets, falsy_ok, depth + 1)
+    if n["k"] == "ref" and n.get("dk") == "local":
+        ds = local_defs(fn, n["name"])
+        if not ds or any(d is None for d in ds):
+            return False
+        return all((falsy_ok and const_value(fn, d) == 0) or value_only_from(fn, d, targets, falsy_ok, depth + 1) for d in ds)
+    return False
+
+
+def cmp_want(pred_a, pred_b):
+    """want function: an (in)equality comparison between something satisfying pred_a and something satisfying pred_b (either order) must come
+    out as 'equal' - '==' true or '!=' false, whichever operator the code uses"""
+    def want(fn, nid):
+        c = eq_cmp(fn, nid)
+        if c is None:
+            return None
+        if (pred_a(fn, c[1]) and pred_b(fn, c[2])) or (pred_a(fn, c[2]) and pred_b(fn, c[1])):
+            return c[0] == "=="
+        return None
+    return want
+
+
+def const_is(v):
+    return lambda fn, nid: const_value(fn, nid) == v
+
+
+def null_want(side_pred):
+    """want function: the value described by side_pred is null / zero / false.  Accepts `x == nullptr`, `x != nullptr`, `x == 0`, plain
+    truthiness `if (x)` / `while (x)` and their negations (strip_cond removes the negations)"""
+    cw = cmp_want(side_pred, const_is(0))
+
+    def want(fn, nid):
+        w = cw(fn, nid)
+        if w is not None:
+            return w
+        if eq_cmp(fn, nid) is None and fn.nodes[nid]["k"] in ("ref", "member", "call", "cast", "un") and side_pred(fn, nid):
+            return False   # the atom itself is the value: it is null when the atom is false
+        return None
+    return want
+
+
+def negate_want(w):
+    def want(fn, nid):
+        r = w(fn, nid)
+        return None if r is None else (not r)
+    return want
+
+
 def only_via(fn, action_nid, atom_pred, polarity=True, relicense=True):
     """K4: is `action` control dependent on atom being `polarity`?  i.e. every path from entry to the action, and (relicense) every
     path from the action back to itself, takes an edge that is only taken when a matching atom has that truth value.
     Returns (ok, offending_path_blocks, n_atoms)"""
-    removed, n_atoms = licensed_edges(fn, lambda f, a: polarity if atom_pred(f, a) else None)
+    return only_via_want(fn, action_nid, lambda f, a: polarity if atom_pred(f, a) else None, relicense)
+
+
+def only_via_want(fn, action_nid, want_fn, relicense=True):
+    """like only_via, but the wanted truth value is given per atom (want_fn(fn, atom) -> True / False / None)"""
+    finfo = {}
+    removed, n_atoms = licensed_edges(fn, want_fn, finfo)
     pos = fn.pos().get(action_nid)
     if pos is None:
         return True, [], n_atoms
@@ -196,24 +300,32 @@ def only_via(fn, action_nid, atom_pred, polarity=True, relicense=True):
         return False, path, n_atoms
     if not relicense:
         return True, [], n_atoms
+    # a cycle through the action must re-evaluate the atom: a flag edge alone does not re-license (the flag may be stale), the cycle must
+    # also pass a block that re-defines the flag from the atom
+    direct = removed - finfo.get("edges", set())
+    blocked = finfo.get("def_blocks", set())
+    if target in blocked:
+        return True, [], n_atoms
     for s in fn.blocks[target]["succ"]:
-        if s is None or (target, s) in removed:
+        if s is None or (target, s) in direct:
             continue
-        p = _path(fn, s, target, removed)
+        p = _path(fn, s, target, direct, blocked)
         if p is not None:
             return False, [target] + p, n_atoms
     return True, [], n_atoms
 
 
-def _path(fn, src, dst, removed_edges):
+def _path(fn, src, dst, removed_edges, blocked=()):
     if src == dst:
         return [src]
+    if src in blocked:
+        return None
     prev = {src: None}
     q = [src]
     while q:
         x = q.pop(0)
         for s in fn.blocks[x]["succ"]:
-            if s is None or (x, s) in removed_edges or s in prev:
+            if s is None or (x, s) in removed_edges or s in prev or (s in blocked and s != dst):
                 continue
             prev[s] = x
             if s == dst:
@@ -374,7 +486,11 @@ def guarded(ctx, rid, pat, action, atom, polarity=True, why="", variants=None, i
             continue
         pred = (lambda f, nid: node_matches(f, nid, atom))
         for a in acts:
-            ok, path, natoms = only_via(fn, a, pred, polarity)
+            if "want" in atom:
+                # semantic condition (want function): the operator / operand order / polarity the code uses does not matter
+                ok, path, natoms = only_via_want(fn, a, atom["want"] if polarity else negate_want(atom["want"]))
+            else:
+                ok, path, natoms = only_via(fn, a, pred, polarity)
             if ok and natoms:
                 ctx.ok(rid, inst0, "%s at line %d only reachable via the %s edge of %s" % (fn.expr(a)[:60], fn.nodes[a].get("l", 0), polarity, mdesc(atom)), fn.where(a), fn=fn)
             else:
@@ -502,12 +618,86 @@ def _flatten_logical(fn, nid):
     return None, [(a, ap)]
 
 
-def licensed_edges(fn, want_fn):
+def _const_bool(fn, nid):
+    """True/False if the expression is a boolean/integer constant (through casts), else None"""
+    for _ in range(6):
+        n = fn.nodes[nid]
+        if n["k"] == "lit" and n.get("v") in (0, 1):
+            return bool(n["v"])
+        if n["k"] == "cast" and fn.kids(nid):
+            nid = fn.kids(nid)[0]
+            continue
+        if "v" in n and n.get("t") == "bool" and n["v"] in (0, 1) and n["k"] not in ("call", "bin", "un"):
+            return bool(n["v"])
+        break
+    return None
+
+
+def flag_license(fn, nid, want_fn, depth=0):
+    """flag variables: `bool ok = false; ... ok = cas(...); ... if (ok) action;`.  For a condition leaf that is a reference to a local with
+    several definitions, returns (lic_true, lic_false, def_blocks): lic_true says that the flag being true implies that some licensing atom
+    had the wanted truth value - every definition of the flag is either a constant (false) that cannot make it true or the (possibly negated)
+    atom itself; flow-insensitive over all definitions, any unknown write (compound assignment, address taken) disables it."""
+    n = fn.nodes[nid]
+    if n["k"] != "ref" or n.get("dk") != "local" or depth > 3:
+        return False, False, set()
+    defs = local_defs(fn, n["name"])
+    if not defs or any(d is None for d in defs):
+        return False, False, set()
+    res = {True: True, False: True}
+    blocks = set()
+    n_lic = 0
+    pos = fn.pos()
+    for d in defs:
+        cv = _const_bool(fn, d)
+        if cv is not None:
+            res[cv] = False
+            continue
+        op, leaves = _flatten_logical(fn, d)
+        if op is not None or not leaves:
+            return False, False, set()
+        a2, p2 = leaves[0]
+        if a2 is None or a2 < 0:
+            return False, False, set()
+        w2 = want_fn(fn, a2)
+        if w2 is None:
+            lt, lf, bl = flag_license(fn, a2, want_fn, depth + 1)
+            if not (lt or lf):
+                return False, False, set()
+            # flag true <=> inner flag == p2
+            res[True] = res[True] and (lt if p2 else lf)
+            res[False] = res[False] and (lf if p2 else lt)
+            blocks |= bl
+            n_lic += 1
+            continue
+        n_lic += 1
+        # flag == X  implies  atom == (p2 if X else not p2)
+        res[True] = res[True] and (w2 == p2)
+        res[False] = res[False] and (w2 == (not p2))
+        pp = pos.get(a2)
+        if pp is None:
+            # the atom is a sub-expression of an event: find the enclosing event's block
+            for b, i, e, nn in fn.events(live_only=True):
+                if a2 in fn.subtree(e):
+                    pp = (b, i)
+                    break
+        if pp is not None:
+            blocks.add(pp[0])
+    if n_lic == 0:
+        return False, False, set()
+    return res[True], res[False], blocks
+
+
+def licensed_edges(fn, want_fn, flag_info=None):
     """set of CFG edges (block, successor) that are guaranteed to be taken only when some atom has the truth value want_fn(fn, atom) asks for.
     Short-circuit conditions are handled exactly: the block carrying `a || b` is left through its true edge when a OR b holds, so that edge is
-    licensed only if every disjunct is a licensing atom (dually for &&)."""
+    licensed only if every disjunct is a licensing atom (dually for &&).  A leaf that is a boolean flag variable holding the result of a
+    licensing atom counts as that atom (flag_license); flag_info (dict) receives the flag-licensed edges and the blocks that (re)define the flags."""
     out = set()
     n_atoms = 0
+    if flag_info is not None:
+        flag_info.setdefault("edges", set())
+        flag_info.setdefault("def_blocks", set())
     for b, blk in fn.blocks.items():
         if "cond" not in blk or len(blk["succ"]) != 2:
             continue
@@ -527,6 +717,19 @@ def licensed_edges(fn, want_fn):
         # leaf expression i is true  <=>  atom_i == pol_i
         lic_when_true = [w is not None and w == pol for (a, pol), w in zip(leaves, wants)]      # leaf-expr true implies wanted value
         lic_when_false = [w is not None and w == (not pol) for (a, pol), w in zip(leaves, wants)]  # leaf-expr false implies wanted value
+        via_flag = False
+        for i_, ((a, pol), w) in enumerate(zip(leaves, wants)):
+            if w is None and a is not None and a >= 0:
+                lt, lf, bl = flag_license(fn, a, want_fn)
+                if lt or lf:
+                    # leaf-expr true <=> flag == pol
+                    lic_when_true[i_] = lt if pol else lf
+                    lic_when_false[i_] = lf if pol else lt
+                    via_flag = True
+                    n_atoms += 1
+                    if flag_info is not None:
+                        flag_info["def_blocks"] |= bl
+        before = set(out) if via_flag and flag_info is not None else None
         if op is None:
             if lic_when_true[0] and t is not None:
                 out.add((b, t))
@@ -542,6 +745,8 @@ def licensed_edges(fn, want_fn):
                 out.add((b, t))
             if all(lic_when_false) and f is not None:
                 out.add((b, f))
+        if before is not None:
+            flag_info["edges"] |= (out - before)
     return out, n_atoms
 
 
@@ -597,6 +802,8 @@ def srcs(fn, nid, depth=0, seen=None):
             return out
         out.add("call:" + leaf)
         for x in c:
+            out |= srcs(fn, x, depth + 1, seen)
+        for x in n.get("inl_rets", ()):      # virtually inlined helper: its value is what it returns
             out |= srcs(fn, x, depth + 1, seen)
         return out
     if k == "ref":
